@@ -279,7 +279,7 @@ GENERIC_KEYS = {"ok", "err", "culprits", "min", "max", "id", "same", "roundtrip_
 ORDERED_KEYS = set()
 
 
-def run_trace_tlc(d, module, trace_file, q=None, timeout=1200, _retry=True, doms=True):
+def run_trace_tlc(d, module, trace_file, q=None, timeout=1200, _retry=True, doms=True, extra_cfg=None):
     """TLC on a trace specification; returns (lines_consumed, bad list [(line, op, key)])."""
     for root in (SPEC, os.path.join(SPEC, "props"), os.path.join(SPEC, "trace")):
         for f in os.listdir(root):
@@ -293,6 +293,7 @@ def run_trace_tlc(d, module, trace_file, q=None, timeout=1200, _retry=True, doms
             cfg += [f" {k} <- MC_Empty" for k in ("DomH1", "DomH2", "DomH3", "DomH4", "DomH5", "DomHDKG", "DomHR", "DomHID")]
     if len(cfg) == 1:
         cfg = []
+    cfg += (extra_cfg or [])
     cfg += ["SPECIFICATION TraceSpec", "INVARIANT Consumed", "CHECK_DEADLOCK FALSE"]
     open(os.path.join(d, "TMC.tla"), "w").write(f"---- MODULE TMC ----\nEXTENDS {module}\nMC_Empty == {{}}\n====\n")
     open(os.path.join(d, "TMC.cfg"), "w").write("\n".join(cfg) + "\n")
@@ -304,7 +305,7 @@ def run_trace_tlc(d, module, trace_file, q=None, timeout=1200, _retry=True, doms
     i = mm.start() if mm else -1
     if i < 0 and _retry:
         time.sleep(2)
-        return run_trace_tlc(d, module, trace_file, q, timeout, _retry=False, doms=doms)
+        return run_trace_tlc(d, module, trace_file, q, timeout, _retry=False, doms=doms, extra_cfg=extra_cfg)
     if i < 0:
         raise ToolError(f"trace validation ({module}) produced no result:\n" + "\n".join(out.splitlines()[-30:]))
     j = out.find("Model checking completed", i)
@@ -659,6 +660,39 @@ def fuzz_stage(ctx):
     ctx.cov["decoder_inputs"] = total
     ctx.cov["decoder_inputs_nontrivial"] = nontrivial
     ctx.cov["trace_events_validated"] += total
+
+
+def lifecycle_stage(ctx):
+    d = os.path.join(ctx.dir, "lifecycle")
+    os.makedirs(d, exist_ok=True)
+    rounds = 20 if ctx.tier == "thorough" else 4
+    total = 0
+    for suite in REAL_SUITES:
+        ep = os.path.join(d, f"{suite}.ndjson")
+        rc, o, e = sh(f"{FV} lifecycle --suite {suite} --seed {ctx.seed} --rounds {rounds} --events {ep}", cwd=d, timeout=1800)
+        if rc != 0 or "SUMMARY" not in o:
+            raise ToolError(f"fv lifecycle failed for {suite}: {o[-300:]} {e[-300:]}")
+        open(os.path.join(d, "TMCL.cfg"), "w").write("")
+        n_ev, bad = run_trace_tlc(d, "TraceLifecycle", ep, extra_cfg=["CONSTANT MaxObjs = 1"])
+        ev = load_events(ep)
+        total += n_ev
+        log(f"[{ctx.pid}] lifecycle {suite}: {n_ev} events validated against TraceLifecycle, {len(bad)} law violations")
+        seen = set()
+        for (line, ty, law) in bad:
+            if law == "observer_blind" or law.startswith("not_exercised"):
+                raise ToolError(f"lifecycle observer failure ({law}, {ty}, {suite})")
+            key = f"{ctx.pid}:{ty}:{law}"
+            if key in seen:
+                continue
+            seen.add(key)
+            x = ev[line - 1]
+            ctx.violation(key, f"{law}: {suite} {ty}: {json.dumps(x)[:300]}", replay_obj={"suite": suite, "seed": ctx.seed, "event": x})
+        if len(ctx.cov["samples"]) < 3:
+            ctx.cov["samples"].append(ev[1])
+        os.remove(ep)
+    ctx.cov["trace_events_validated"] += total
+    ctx.cov["lifecycle_cases"] = total
+    ctx.cov["traces_validated_against_impl"] += len(REAL_SUITES)
 
 
 def assume_stage(ctx, name, module, consts, timeout=900):
